@@ -61,6 +61,7 @@ def is_datasize(e):
     return e is not None and e.get('k') == 'Member' and e.get('name') in ('dataSize_', 'estimateSize_') and strip_casts(e['base']).get('k') == 'This'
 
 
+BOUNDED_LOOP_VARS = set()      # ids of loop variables that run below dataSize_ / estimateSize_ in the function being judged
 PASS_THROUGH = ('col', 'array', 'matrix', 'leftCols', 'middleCols', 'rightCols', 'eval', 'noalias', 'derived')
 WHOLE_USE = ('transpose', 'adjoint', 'dot', 'sum', 'norm', 'squaredNorm', 'cwiseProduct', 'cwiseQuotient', 'asDiagonal', 'colwise', 'rowwise', 'mean', 'maxCoeff', 'minCoeff', 'rows', 'data',
              'jacobiSvd', 'ldlt', 'llt', 'inverse', 'determinant', 'square', 'abs')
@@ -76,6 +77,12 @@ def sliced(member, chain):
         o = obj
         while o is not None and o.get('k') in ('Cast', 'DefaultArg'):
             o = o['e']
+        if a.get('k') == 'Op' and a.get('op') in ('()', '[]') and a.get('args') and strip_casts(a['args'][0]) is cur:
+            # element access X(i[, j]): inside the current rows when the row index is a loop variable bounded by dataSize_ / estimateSize_
+            idx = strip_casts(a['args'][1]) if len(a['args']) > 1 else None
+            if idx is not None and idx.get('k') == 'Ref' and idx.get('id') in BOUNDED_LOOP_VARS:
+                return True
+            return None
         if a.get('k') != 'MCall' or o is not cur:
             # `cur` is an operand of an operator / an argument of a call: it is used with all its rows
             return False
@@ -89,6 +96,9 @@ def sliced(member, chain):
             return True if const_value(args[0]) == 0 and is_datasize(args[2]) else None
         if name in ('topLeftCorner', 'topRightCorner') and len(args) == 2:
             return True if is_datasize(args[0]) else None
+        if name == 'row' and len(args) == 1:
+            idx = strip_casts(args[0])
+            return True if idx.get('k') == 'Ref' and idx.get('id') in BOUNDED_LOOP_VARS else None
         if name in PASS_THROUGH:
             cur = a
             continue
@@ -191,6 +201,12 @@ def run(fx, R, tier, sv_ratio=1e-12, sv_why='with cond(J) < 1e6 (quantifier) the
                 if mth['name'] in ACCESSORS or mth['name'] in ('setDataSize', 'setEstimateSize'):
                     continue
                 R.used(f)
+                BOUNDED_LOOP_VARS.clear()
+                for L_ in walk(f['body']):
+                    if L_.get('k') == 'For' and L_.get('init') and L_['init'].get('k') == 'Decl' and L_['init']['vars'] and L_.get('c') is not None:
+                        c_ = strip_casts(L_['c'])
+                        if c_.get('k') == 'Bin' and c_.get('op') == '<' and strip_casts(c_['l']).get('id') == L_['init']['vars'][0]['id'] and is_datasize(c_['r']):
+                            BOUNDED_LOOP_VARS.add(L_['init']['vars'][0]['id'])
                 for (mem, chain) in uses_with_chain(f['body']):
                     inst = '%s::%s:%s' % (cname, f['name'], mem['name'])
                     sl = sliced(mem, chain)
@@ -648,3 +664,54 @@ def check_instance(fx, R, cq, cname):
                         R.undecided('L7', pinst, 'result differs in form from %s and the difference is not decided' % what)
             if all_ok and sts and tag.startswith('3 rows'):
                 DECIDED.add(name)
+        # the SVD path up to the decomposition: the matrix it decomposes and the right-hand side are those of the current rows
+        fs_ = fx.one(cq + '::estimateUsingSVD')
+        if fs_ is not None and fs_.get('body') is not None and fs_['body'].get('k') == 'Compound':
+            top_ = fs_['body']['s']
+            cut = next((i_ for i_, x_ in enumerate(top_) if x_.get('k') == 'Decl' and any('JacobiSVD' in (v_['t'].get('s') or '') for v_ in x_['vars'])), None)
+            iname = '%s::estimateUsingSVD:instance(%s):normal-equations' % (cname, tag)
+            if cut is None:
+                R.undecided('L7', iname, 'no JacobiSVD declaration at the top level of the SVD path')
+            else:
+                H_ = lsmodel.Hook(inst)
+                rd_ = sym.Reader(fx, call_hook=H_, member_hook=H_.member, max_paths=16, max_depth=8)
+                rd_.unroll = 16
+                st0 = sym.State()
+                for k_, v_ in inst.init.items():
+                    st0.fields[('this', k_)] = v_
+                ctx_ = {'this': ('this',), 'fn': fs_, 'depth': 0}
+                try:
+                    states = [st0]
+                    for x_ in top_[:cut]:
+                        nxt = []
+                        for s__ in states:
+                            nxt += rd_.ex(x_, s__, ctx_)
+                        states = nxt
+                    # which matrix is decomposed?
+                    arg_ = top_[cut]['vars'][0].get('init')
+                    dec_of = pp(arg_)
+                    for st_ in states:
+                        desc = ' && '.join(('' if c[2] else '!') + '(' + c[0] + ')' for c in st_.cond)
+                        for (fld_, exp_, what_) in (('JtJ_', J3.T * J3, 'J^T J'), ('JtY_', J3.T * Y3, 'J^T Y')):
+                            got_ = st_.fields.get(('this', fld_))
+                            if isinstance(got_, sp.MatrixBase) and lsmodel.same_matrix(got_, exp_):
+                                R.holds('L7', iname + ':' + fld_ + ('[%s]' % desc if desc else ''), '%s of the current rows when the decomposition starts' % what_, fx.rel(fs_['loc']), 'E-ALG')
+                            elif isinstance(got_, sp.MatrixBase):
+                                fsym = set().union(*[x__.free_symbols for x__ in got_])
+                                bad_ = None
+                                for d_ in (sp.Matrix(got_) - sp.Matrix(exp_)):
+                                    v__ = alg.decide_zero(sp.together(d_))
+                                    if v__[0] == 'nonzero':
+                                        bad_ = v__
+                                        break
+                                if fsym & (stale_rows | old_state) or bad_:
+                                    R.violated('L7', '%s::estimateUsingSVD:normal-equations:%s' % (cname, fld_), 'on the instance (%s), when the SVD path reaches its decomposition %s is not %s of the '
+                                               'current problem%s: the SVD path then minimises something else than |Jx - Y| (and disagrees with the Cholesky path)' % (
+                                                   tag, fld_, what_, (' (it contains %s)' % sorted(map(str, fsym & (stale_rows | old_state)))[0]) if fsym & (stale_rows | old_state) else
+                                                   ' (an entry differs by %s at %s)' % (bad_[2], alg.witness_text(bad_[1])[:160])), fx.rel(fs_['loc']), 'E-ALG')
+                                else:
+                                    R.undecided('L7', iname + ':' + fld_, 'differs in form from %s of the current rows; not decided' % what_)
+                            else:
+                                R.undecided('L7', iname + ':' + fld_, 'not readable as a matrix')
+                except sym.Unsupported as u:
+                    R.undecided('L7', iname, 'prefix of the SVD path not interpretable: %s' % u)
